@@ -17,8 +17,17 @@ Scenario steps:
                waits until the requests issued meanwhile have gone through (record `U`).  On the
                model of the Go code (`ReqMgrFine`) these are separate steps; the specification
                only says what must have happened by `U` (`collapse`).
+* `cancel c` : the context caller `c` passed to `Pull` is cancelled.  MODELLED BEHAVIOUR of the code
+               that exists: `Pull` ignores its context once the request is registered
+               (`res := <-r.handleRequest(ctx, image)`), the pull goroutine is not stopped either -
+               the step changes nothing: the in-flight table is as it was and the caller is still
+               answered when the pull completes.  Record `x` (the caller is blocked in `Pull`: a
+               context in use is cancelled) or `y` (nothing to cancel).
 * at the end every pull still in flight is completed with a package, in image order (records `D`),
   and the number of callers still waiting is reported.
+
+The number `n` of images the harness scripts and reports on is a parameter of the scenario (any
+number: the model has no bound on the images in flight at the same time).
 -/
 import Pko.Model.ReqMgr
 import Pko.Model.ReqMgrSpec
@@ -28,13 +37,14 @@ open Pko.Model.ReqMgr
 open Pko.Model.ReqMgrSpec (Spec)
 open Pko.Model.ReqMgrFine (FState fstep sendN pulling)
 
-/-- number of images the harness reports on -/
-def nImg : Nat := 2
+/-- number of images the harness reports on when the scenario does not say -/
+def nImgDefault : Nat := 2
 
 inductive SStep where
   | req (c : Caller) (i : Image)
   | done (i : Image) (err : Bool)
   | park (i : Image) (err : Bool) (k : Nat) (mid : List (Caller × Image))
+  | cancel (c : Caller)
   | bad
   deriving DecidableEq, Repr
 
@@ -101,13 +111,13 @@ structure Machine (σ : Type) where
   obs : Nat → σ → Op → Obs
   view : σ → Spec
   /-- a parked completion (only called when a pull for the image is in flight) -/
-  park : σ → Image → Result → Nat → List (Caller × Image) → Grp × σ
+  park : Nat → σ → Image → Result → Nat → List (Caller × Image) → Grp × σ
 
 /-- observation of a fine-grained state in which nothing is being returned -/
-def fineIdleObs (f : FState) : Obs :=
+def fineIdleObs (n : Nat) (f : FState) : Obs :=
   { happened := false
-    started := (List.range nImg).map f.base.started
-    inflight := (List.range nImg).map (pulling f)
+    started := (List.range n).map f.base.started
+    inflight := (List.range n).map (pulling f)
     returned := [], aliased := 0 }
 
 /-- A parked completion on the model of the Go code, statement by statement (`ReqMgrFine`):
@@ -116,7 +126,7 @@ call `handleRequest`; the loop runs to its end, the entry is deleted, the lock r
 requests that were attempted meanwhile call `handleRequest` (again: they were blocked in
 `Lock()`).  Nothing here assumes that the attempts during the broadcast fail - that is what
 `fstep` says, because the lock is held. -/
-def parkModel (s : State) (i : Image) (res : Result) (k : Nat) (mid : List (Caller × Image)) :
+def parkModel (n : Nat) (s : State) (i : Image) (res : Result) (k : Nat) (mid : List (Caller × Image)) :
     Grp × State :=
   let plan := midPlan (Pko.Model.ReqMgrSpec.abs s) i k mid [] []
   let f1 := fstep { base := s, bc := none } (.lockResp i res)
@@ -124,21 +134,21 @@ def parkModel (s : State) (i : Image) (res : Result) (k : Nat) (mid : List (Call
   let f2 := a.2
   let pObs : Obs :=
     { happened := true
-      started := (List.range nImg).map f2.base.started
-      inflight := (List.range nImg).map (pulling f2)
+      started := (List.range n).map f2.base.started
+      inflight := (List.range n).map (pulling f2)
       returned := a.1.map fun p => (s.callerOf p.1, p.2.res)
       aliased := aliasCount (a.1.map (·.2)) }
   let attempt := fun (f : FState) (p : Bool × Caller × Image) =>
     if p.1 then fstep f (.request p.2.1 p.2.2) else f
   let f3 := plan.foldl attempt f2
-  let mids := plan.map fun p => Rec.step (if p.1 then "w" else "b") (fineIdleObs f2)
+  let mids := plan.map fun p => Rec.step (if p.1 then "w" else "b") (fineIdleObs n f2)
   let b := sendN (((s.inFlight i).getD []).length) f3
   let f5 := fstep b.2 .unlockResp
   let f6 := plan.foldl attempt f5
   let uObs : Obs :=
     { happened := true
-      started := (List.range nImg).map f6.base.started
-      inflight := (List.range nImg).map (pulling f6)
+      started := (List.range n).map f6.base.started
+      inflight := (List.range n).map (pulling f6)
       returned := b.1.map fun p => (s.callerOf p.1, p.2.res)
       aliased := aliasCount ((a.1 ++ b.1).map (·.2)) }
   (.park pObs mids uObs, f6.base)
@@ -147,14 +157,14 @@ def parkModel (s : State) (i : Image) (res : Result) (k : Nat) (mid : List (Call
 completed - everybody who waited for it has its result, once - and every request that arrived
 meanwhile has been served *after* it (a fresh pull for the same image, the usual rules for
 another one); nothing handed out shares memory. -/
-def parkSpec (sp : Spec) (i : Image) (res : Result) (k : Nat) (mid : List (Caller × Image)) :
+def parkSpec (n : Nat) (sp : Spec) (i : Image) (res : Result) (k : Nat) (mid : List (Caller × Image)) :
     Grp × Spec :=
   let plan := midPlan sp i k mid [] []
   let sp2 := Pko.Model.ReqMgrSpec.run (Pko.Model.ReqMgrSpec.step sp (.complete i res)) (planOps plan)
   (.one (.step "U"
     { happened := true
-      started := (List.range nImg).map sp2.started
-      inflight := (List.range nImg).map fun j => if (sp2.pull j).isSome then 1 else 0
+      started := (List.range n).map sp2.started
+      inflight := (List.range n).map fun j => if (sp2.pull j).isSome then 1 else 0
       returned := ((sp.pull i).getD []).map fun r => (sp.callerOf r, res)
       aliased := 0 }), sp2)
 
@@ -170,57 +180,60 @@ def specMachine : Machine Spec :=
 def payload (i gen : Nat) : Nat := i * 1000 + gen
 
 /-- Observation of a scenario step that does not reach the request manager at all. -/
-def idleObs (v : Spec) : Obs :=
+def idleObs (n : Nat) (v : Spec) : Obs :=
   { happened := false
-    started := (List.range nImg).map v.started
-    inflight := (List.range nImg).map fun i => if (v.pull i).isSome then 1 else 0
+    started := (List.range n).map v.started
+    inflight := (List.range n).map fun i => if (v.pull i).isSome then 1 else 0
     returned := [], aliased := 0 }
 
-def stepRec {σ : Type} (m : Machine σ) (s : σ) : SStep → Grp × σ
+def stepRec {σ : Type} (n : Nat) (m : Machine σ) (s : σ) : SStep → Grp × σ
   | .req c i =>
-    if busy (m.view s) c then (.one (.step "b" (idleObs (m.view s))), s)
-    else (.one (.step "q" (m.obs nImg s (.request c i))), m.step s (.request c i))
+    if busy (m.view s) c then (.one (.step "b" (idleObs n (m.view s))), s)
+    else (.one (.step "q" (m.obs n s (.request c i))), m.step s (.request c i))
   | .done i err =>
     let g := (m.view s).started i
     let res := if err then Result.err (payload i g) else Result.pkg (payload i g)
-    let o := m.obs nImg s (.complete i res)
+    let o := m.obs n s (.complete i res)
     (.one (.step (if o.happened then "d" else "n") o), m.step s (.complete i res))
   | .park i err k mid =>
     let g := (m.view s).started i
     let res := if err then Result.err (payload i g) else Result.pkg (payload i g)
-    if ((m.view s).pull i).isSome then m.park s i res k mid
-    else (.one (.step "n" (idleObs (m.view s))), s)
+    if ((m.view s).pull i).isSome then m.park n s i res k mid
+    else (.one (.step "n" (idleObs n (m.view s))), s)
+  | .cancel c =>
+    -- `Pull` does not look at its context while it waits, and nothing else does: no effect
+    (.one (.step (if busy (m.view s) c then "x" else "y") (idleObs n (m.view s))), s)
   | .bad => (.one .bad, s)
 
-def runSteps {σ : Type} (m : Machine σ) (s : σ) : List SStep → List Grp × σ
+def runSteps {σ : Type} (n : Nat) (m : Machine σ) (s : σ) : List SStep → List Grp × σ
   | [] => ([], s)
   | st :: sts =>
-    let r := stepRec m s st
-    let rest := runSteps m r.2 sts
+    let r := stepRec n m s st
+    let rest := runSteps n m r.2 sts
     (r.1 :: rest.1, rest.2)
 
-def drain {σ : Type} (m : Machine σ) (s : σ) : List Image → List Grp × σ
+def drain {σ : Type} (n : Nat) (m : Machine σ) (s : σ) : List Image → List Grp × σ
   | [] => ([], s)
   | i :: is =>
     if ((m.view s).pull i).isSome then
       let op := Op.complete i (.pkg (payload i ((m.view s).started i)))
-      let rest := drain m (m.step s op) is
-      (.one (.step "D" (m.obs nImg s op)) :: rest.1, rest.2)
-    else drain m s is
+      let rest := drain n m (m.step s op) is
+      (.one (.step "D" (m.obs n s op)) :: rest.1, rest.2)
+    else drain n m s is
 
 /-- The whole trace of a scenario, step by step. -/
-def traceG {σ : Type} (m : Machine σ) (steps : List SStep) : List Grp :=
-  let a := runSteps m m.init steps
-  let b := drain m a.2 (List.range nImg)
+def traceG {σ : Type} (n : Nat) (m : Machine σ) (steps : List SStep) : List Grp :=
+  let a := runSteps n m m.init steps
+  let b := drain n m a.2 (List.range n)
   a.1 ++ b.1 ++ [.one (.fin (waiting (m.view b.2)).length)]
 
 /-- The records printed for a scenario. -/
-def trace {σ : Type} (m : Machine σ) (steps : List SStep) : List Rec :=
-  (traceG m steps).flatMap flat
+def trace {σ : Type} (n : Nat) (m : Machine σ) (steps : List SStep) : List Rec :=
+  (traceG n m steps).flatMap flat
 
 /-- What the property is judged on: parked broadcasts are looked at once they are over. -/
-def traceC {σ : Type} (m : Machine σ) (steps : List SStep) : List Rec :=
-  (traceG m steps).map collapse
+def traceC {σ : Type} (n : Nat) (m : Machine σ) (steps : List SStep) : List Rec :=
+  (traceG n m steps).map collapse
 
 def SStep.isPark : SStep → Bool
   | .park .. => true
